@@ -702,6 +702,15 @@ impl<'a, 'ast> Visit<'ast> for Ctx<'a> {
                     }
                 }
             }
+            syn::Expr::Call(c) if !self.item.no_ptr_rule && c.args.len() == 2 && matches!(&*c.func, syn::Expr::Path(p) if last_seg(&p.path) == "write") && self.is_ptr_add(&c.args[0]).is_some() => {
+                // E5: `ptr::write(P.add(e), v)` -> `X[e] = v` (for Copy element types no destructor runs on the overwritten slot)
+                let (base, idx) = self.is_ptr_add(&c.args[0]).unwrap();
+                let v = self.src.slice(c.args[1].span()).to_string();
+                let (a, b) = self.src.range(c.span());
+                self.add(a, b, format!("{base}[{idx}] = {v}"), "E5 ptr::write -> index assignment");
+                self.site("e5_access");
+                return;
+            }
             syn::Expr::Call(c) => {
                 // E12 (free functions): `once(x)` / `iter::repeat_n(x, n)` -> `vx_once(x)` / `vx_repeat_n(x, n)` when listed as `fn:<name>`
                 if let syn::Expr::Path(p) = &*c.func {
